@@ -915,6 +915,22 @@ RULES["log"] = _mk_uf("log")
 RULES["exp"] = _mk_uf("exp")
 
 
+@rule("log1p")
+def _log1p(trace, args, avals, params, prim):
+    """log1p(x) = log(1 + x) (real-number model)"""
+    a = to_obj(args[0])
+    res = np.asarray(vec(lambda x: uf("log", _arith("add", 1, x)), 1)(a), dtype=object).reshape(a.shape)
+    return (res, avals[0])
+
+
+@rule("expm1")
+def _expm1(trace, args, avals, params, prim):
+    """expm1(x) = exp(x) - 1 (real-number model)"""
+    a = to_obj(args[0])
+    res = np.asarray(vec(lambda x: _arith("sub", uf("exp", x), 1), 1)(a), dtype=object).reshape(a.shape)
+    return (res, avals[0])
+
+
 @rule("pow")
 def _pow(trace, args, avals, params, prim):
     """pow(b, x): b == float(e) (jnp.logspace(..., base=jnp.e)) -> exp(x) (the float literal e is
